@@ -2,40 +2,28 @@
     [Gen.Callbacks] is regenerated from contract/{vm_callback,vm,vm_state,internal_operations}.go
     by gen/gen_vmguard on every run (the VM cannot be built or run here: the tie is the translator). *)
 From Coq Require Import List Bool String.
-From Verif Require Import VmGuard.Lang VmGuard.Analysis VmGuard.CSide Gen.Callbacks Gen.CCallbacks.
+From Verif Require Import VmGuard.Lang VmGuard.Analysis VmGuard.CSide VmGuard.Reviewed Gen.Callbacks Gen.CCallbacks.
 Import ListNotations.
 
-(** The analyser is sound for every program, callback list and call-depth bound: if [check]
+(** The analyser is sound for every program, callback list and iteration bound (it verifies that
+    its summary table is inductive, so recursion and any call depth are covered): if [check]
     accepts, no trace of any exported callback started in a read-only context (isQuery or
     nestedView > 0; amounts non-negative unless fork version >= 5) performs a mutator forbidden
     in the context it is performed in, contract code run from callbacks included. *)
-Theorem C20_analysis_sound : forall (p : prog) (cbs : list string) (fuel : nat),
-  check p cbs fuel = true ->
+Theorem C20_analysis_sound : forall (p : prog) (cbs : list string) (n : nat),
+  check p cbs n = true ->
   forall cb e t o, In cb cbs -> good e = true -> exec p cbs e (Call cb) t o ->
   forall m k e0, In (m, k, e0) t -> forbidden k e0 = false.
 Proof. exact analysis_sound. Qed.
 Print Assumptions C20_analysis_sound.
 
-(** The obligation over the translated source: every exported host callback passes the check. *)
-Theorem C20_callbacks_checked : check Gen.Callbacks.program Gen.Callbacks.callbacks 16 = true.
-Proof. vm_compute. reflexivity. Qed.
-Print Assumptions C20_callbacks_checked.
-
-(** Hence: in the translated host API no read-only execution reaches a state mutator. *)
-Theorem C20_readonly_no_mutation :
-  forall cb e t o, In cb Gen.Callbacks.callbacks -> good e = true ->
-  exec Gen.Callbacks.program Gen.Callbacks.callbacks e (Call cb) t o ->
-  forall m k e0, In (m, k, e0) t -> forbidden k e0 = false.
-Proof. exact (analysis_sound _ _ _ C20_callbacks_checked). Qed.
-Print Assumptions C20_readonly_no_mutation.
-
-(** The C side.  Every C function registered with Lua is an entry point of contract code; its
-    body (calls of Go callbacks, luaCheckView guards, SQL statement execution) is translated by
+(** The obligation over the translated source.  Entry points are the exported Go host callbacks
+    and every C function registered with Lua; a C function's body (calls of Go callbacks, luaCheckView guards, SQL statement execution) is translated by
     lib/g6_cscan.py and checked together with the Go callbacks it calls, in every context. *)
 Definition whole_program : prog := (Gen.Callbacks.program ++ Gen.CCallbacks.c_program)%list.
 Definition entry_points : list string := (Gen.Callbacks.callbacks ++ Gen.CCallbacks.c_entries)%list.
 
-Theorem C20_c_side_checked : check whole_program entry_points 16 = true.
+Theorem C20_c_side_checked : check whole_program entry_points 8 = true.
 Proof. vm_compute. reflexivity. Qed.
 Print Assumptions C20_c_side_checked.
 
@@ -50,6 +38,13 @@ Print Assumptions C20_readonly_no_mutation_c_side.
 Theorem C20_c_inventory_reviewed : c_inventory_reviewed Gen.CCallbacks.c_inventory = true.
 Proof. vm_compute. reflexivity. Qed.
 Print Assumptions C20_c_inventory_reviewed.
+
+(** Every verb-named external callee occurring in the reachable functions is classified in
+    VmGuard/Reviewed.v, and the classification agrees with the translator's mutator / restore lists. *)
+Theorem C20_callees_classified :
+  classification_ok Gen.Callbacks.verb_callees Gen.Callbacks.translator_mutators Gen.Callbacks.translator_restore = true.
+Proof. vm_compute. reflexivity. Qed.
+Print Assumptions C20_callees_classified.
 
 (** F13 (known finding, fork version 4 only): the theorems above carry the hypothesis
     [good e] = read-only and (amount >= 0 or fork version >= 5).  Without it the check finds, on
